@@ -33,7 +33,7 @@ func vSmallTotal(p []byte) {
 	vAssume(err != nil || t <= 3)
 }
 
-// verif: sched=coop cover=delivered,pending bounds="two packets from one source through handleTell; quick: 0..4 bytes each, announced fragment counts <= 3; thorough: 0..6 bytes, any count"
+// verif: sched=coop cover=delivered,pending bounds="two packets from one source through handleTell; quick: 0..4 bytes each, announced fragment counts <= 3; thorough: 0..5 bytes, any count"
 func VH_C08_fragHandleTellSeq() bool {
 	var sent []vSent
 	var got []vGot
@@ -42,7 +42,7 @@ func VH_C08_fragHandleTellSeq() bool {
 	ctx := context.Background()
 	n := 4
 	if vThorough() {
-		n = 6
+		n = 5
 	}
 	p1 := vBytes(n)
 	p2 := vBytes(n)
